@@ -375,18 +375,22 @@ func C27(c *Ctx) {
 			c.Decide(ev != nil && ev.Referrers() != nil && len(*ev.Referrers()) > 0, r3, key(fn, fmt.Sprintf("Rename[%d]#error-used", i+1)), r.Pos(), 1, "rename error is reported", "Rename's error is dropped")
 		}
 		// monotone: either caller samples under a lock held across the save, or clamp under stateMu
+		// the value stored into each field of the AllocatorState that gets written is max(param, saved.field):
+		// a phi (or builtin max) joining the parameter with a load of LocalStore.saved.<field>
 		clamp := 0
-		for _, b := range fn.Blocks {
-			if ifi := ifOf(b); ifi != nil {
-				if bo, ok := ifi.Cond.(*ssa.BinOp); ok && (bo.Op == token.LSS || bo.Op == token.GTR || bo.Op == token.LEQ || bo.Op == token.GEQ) {
-					_, isP := bo.X.(*ssa.Parameter)
-					if ph, okp := bo.X.(*ssa.Phi); okp {
-						_ = ph
-						isP = true
+		for _, fld := range []string{"IDCurrent", "TSCurrent"} {
+			for _, st := range fieldStoresIn(fn, false, "pd/storage.AllocatorState", fld) {
+				sv, ok := st.(*ssa.Store)
+				if !ok {
+					continue
+				}
+				if fa, ok := sv.Addr.(*ssa.FieldAddr); ok {
+					if _, isAlloc := fa.X.(*ssa.Alloc); !isAlloc {
+						continue // not the literal being written (e.g. s.saved.X = …)
 					}
-					if isP && strings.HasPrefix(ownerOfField(bo.Y), "pd/storage.") && ls.Holds(ifi, "pd/storage.LocalStore.stateMu", false) {
-						clamp++
-					}
+				}
+				if isMaxOfParamAndSaved(sv.Val, fld) && ls.Holds(sv, "pd/storage.LocalStore.stateMu", false) {
+					clamp++
 				}
 			}
 		}
@@ -405,7 +409,7 @@ func C27(c *Ctx) {
 			}
 		}
 		c.Decide(clamp >= 2 || callerOrdered, r3, key(fn, "checkpoint-never-regresses"), fn.Pos(), clamp+2,
-			ifs(callerOrdered, "samples are taken under the lock that orders the writes", fmt.Sprintf("both counters are clamped under stateMu to the highest saved values (%d comparisons)", clamp)),
+			ifs(callerOrdered, "samples are taken under the lock that orders the writes", fmt.Sprintf("both counters are clamped under stateMu to the highest saved values (%d max-joins)", clamp)),
 			"the counters are sampled outside the lock that orders the writes and not clamped: two requests can write their samples in the opposite order, so a value already handed out can be above the checkpoint")
 		// saved state updated only after the rename succeeded
 		for i, st := range fieldStoresIn(fn, false, "pd/storage.LocalStore", "saved") {
@@ -445,6 +449,29 @@ func C27(c *Ctx) {
 		})
 		c.Decide(incs == 2 && maxes == 2, r4, key(fn, "start=max(start,checkpoint+1)x2"), fn.Pos(), incs+maxes+1, "both starts are raised to checkpoint+1", fmt.Sprintf("expected two checkpoint+1 computations and two max comparisons, found %d and %d", incs, maxes))
 	}
+}
+
+// isMaxOfParamAndSaved: v is phi(param, load saved.fld) or max(param, load saved.fld).
+func isMaxOfParamAndSaved(v ssa.Value, fld string) bool {
+	var parts []ssa.Value
+	switch x := v.(type) {
+	case *ssa.Phi:
+		parts = x.Edges
+	case *ssa.Call:
+		if b, ok := x.Call.Value.(*ssa.Builtin); ok && b.Name() == "max" {
+			parts = x.Call.Args
+		}
+	}
+	hasP, hasS := false, false
+	for _, e := range parts {
+		if _, ok := e.(*ssa.Parameter); ok {
+			hasP = true
+		}
+		if o, f, ok := FieldOf(e); ok && strings.HasPrefix(o, "pd/storage.") && f == fld {
+			hasS = true
+		}
+	}
+	return hasP && hasS
 }
 
 func ownerOfField(v ssa.Value) string {
